@@ -54,26 +54,44 @@ GroupSize(first, arity) ==
 
 -----------------------------------------------------------------------------
 (* Build sessions.                                                         *)
-CONSTANTS Threads, Programs, Alone     \* Alone[p]: the result of building p alone
+CONSTANTS Threads, Programs, Alone     \* Alone[Key(p, e)]: the result of building p alone, in a fresh process whose environment is e
 Stages == <<"parse", "pass0", "pass1", "pass2", "limits">>
 
-VARIABLES running,   \* thread -> [p, s (stage index)]; s = -1: idle
-          done       \* sequence of [t, p, r]: builds that ended, in order
-sessvars == <<running, done>>
+(* The environment of the process: its working directory, which a build reads  *)
+(* (relative names of main files, include files and include paths are resolved *)
+(* against it) and which the caller may change between builds.  A program is   *)
+(* source text + caller-supplied directories; together with the environment it *)
+(* stands in at its start it determines the result.  A program that reads the  *)
+(* environment (it names files relatively) has one entry of Alone per          *)
+(* environment, under p@e; every other program has one entry, under p.         *)
+NoEnv == ""
+ReadsEnv(p, e) == (p \o "@" \o e) \in DOMAIN Alone
+Key(p, e) == IF ReadsEnv(p, e) THEN p \o "@" \o e ELSE p
 
-IdleRec == [p |-> "", s |-> -1]
+VARIABLES running,   \* thread -> [p, s (stage index), e (environment at the start)]; s = -1: idle
+          done,      \* sequence of [t, p, r]: builds that ended, in order
+          env        \* the working directory of the process
+sessvars == <<running, done, env>>
+
+IdleRec == [p |-> "", s |-> -1, e |-> NoEnv]
 Idle(t) == running[t].s = -1
-SessInit == running = [t \in Threads |-> IdleRec] /\ done = << >>
+SessInit == running = [t \in Threads |-> IdleRec] /\ done = << >> /\ env = NoEnv
+\* the caller changes the working directory; the process has one, so this is the caller's to do while no build runs
+Chdir(d) == /\ \A t \in Threads : Idle(t)
+            /\ env' = d
+            /\ UNCHANGED <<running, done>>
 Start(t, p) == /\ Idle(t)
-               /\ running' = [running EXCEPT ![t] = [p |-> p, s |-> 0]]
-               /\ UNCHANGED done
+               /\ running' = [running EXCEPT ![t] = [p |-> p, s |-> 0, e |-> env]]
+               /\ UNCHANGED <<done, env>>
 Stage(t) == /\ ~Idle(t) /\ running[t].s < Len(Stages)
             /\ running' = [running EXCEPT ![t].s = @ + 1]
-            /\ UNCHANGED done
-\* the result depends on the program alone: nothing a build touches is visible to another
+            /\ UNCHANGED <<done, env>>
+\* the result depends on the program and the environment it was started in, on nothing else: nothing a build touches is
+\* visible to another, and nothing of an earlier environment is remembered
 End(t) == /\ ~Idle(t) /\ running[t].s = Len(Stages)
-          /\ done' = Append(done, [t |-> t, p |-> running[t].p, r |-> Alone[running[t].p]])
+          /\ done' = Append(done, [t |-> t, p |-> running[t].p, e |-> running[t].e, r |-> Alone[Key(running[t].p, running[t].e)]])
           /\ running' = [running EXCEPT ![t] = IdleRec]
+          /\ UNCHANGED env
 SessNext == \E t \in Threads : (\E p \in Programs : Start(t, p)) \/ Stage(t) \/ End(t)
-Independent == \A i \in 1..Len(done) : done[i].r = Alone[done[i].p]
+Independent == \A i \in 1..Len(done) : done[i].r = Alone[Key(done[i].p, done[i].e)]
 =============================================================================
